@@ -1915,11 +1915,15 @@ class PseudoNetCDFFile(PseudoNetCDFSelfReg, object):
                             for yyyy, day in zip(yyyys, days)])
             if bounds:
                 if hasattr(self, 'TSTEP'):
-                    tstep = getattr(self, 'TSTEP')
+                    # HHMMSS with a sign for the whole duration (a file that
+                    # runs backward in time): decode the magnitude
+                    tstep = int(getattr(self, 'TSTEP'))
+                    sgn = -1 if tstep < 0 else 1
+                    tstep = abs(tstep)
                     sh = tstep // 10000 * 3600
                     sm = tstep % 10000 // 100 * 60
                     ss = tstep % 100
-                    dt = timedelta(seconds=sh + sm + ss)
+                    dt = timedelta(seconds=sgn * (sh + sm + ss))
                 else:
                     dts = np.diff(out)
                     dt = dts.mean()
@@ -1935,10 +1939,13 @@ class PseudoNetCDFFile(PseudoNetCDFSelfReg, object):
             hhmmss = self.STIME
             refdate = datetime.strptime(
                 '%07d %06d+0000' % (jdate, hhmmss), '%Y%j %H%M%S%z')
-            tstepstr = '%06d' % self.TSTEP
+            # the sign of a negative TSTEP belongs to the whole duration
+            tstepstr = '%06d' % abs(self.TSTEP)
             timeincr = timedelta(seconds=int(tstepstr[-2:])) + \
                 timedelta(minutes=int(tstepstr[-4:-2])) + \
                 timedelta(hours=int(tstepstr[:-4]))
+            if self.TSTEP < 0:
+                timeincr = -timeincr
             ntimes = len(self.dimensions['TSTEP'])
             if bounds:
                 ntimes += 1
